@@ -4,6 +4,7 @@ package mon
 
 import (
 	"fmt"
+	"strings"
 	"sync"
 	"sync/atomic"
 	"testing/synctest"
@@ -241,6 +242,16 @@ func (x *prioExec) afterFault() {
 	}
 }
 
+// blockedState: the goroutine waits for something (as opposed to running its last instructions).
+func blockedState(state string) bool {
+	for _, p := range []string{"chan ", "select", "sleep", "sync.", "semacquire"} {
+		if strings.HasPrefix(state, p) {
+			return true
+		}
+	}
+	return false
+}
+
 // injectStop — C16: Stop / cancel / Stop-after-GracefulStop in the current state.
 func (x *prioExec) injectStop(op POp) {
 	if x.sys.stop == nil || x.stopIssued {
@@ -291,6 +302,15 @@ func (x *prioExec) injectStop(op POp) {
 			if x.sc.simple() {
 				if n := x.sys.entered.Load() - x.sys.returned.Load(); n > 0 {
 					x.runningAtStopReturn.Store(n)
+				}
+			}
+			// C19: at the very instant a Stop() call returns, a goroutine started by the discipline
+			// may still be running its last instructions, but it cannot be BLOCKED on anything -
+			// that would be a goroutine the completed stop has left behind
+			for _, g := range censusBubble(x.ctl.bubbleID.Load()) {
+				if blockedState(g.State) {
+					x.blockedAtStopReturn.CompareAndSwap(nil, g.Text)
+					break
 				}
 			}
 		}
@@ -348,6 +368,9 @@ func (x *prioExec) injectStop(op POp) {
 	// sleeping, e.g. a Handle call that was left behind and is still cleaning up)
 	if left := bubbleCensus(x.ctl); left != "" {
 		x.fail("C19", "leak-after-stop:"+x.sc.Ver+":"+op.K, "%s has completed but goroutine(s) started by the discipline remain (1us virtual later): %s", op.K, firstLines(left, 10))
+	}
+	if v := x.blockedAtStopReturn.Load(); v != nil {
+		x.fail("C19", "blocked-goroutine-at-stop-return:"+x.sc.Ver, "a Stop() call returned while a goroutine started by the discipline was blocked (two overlapping Stop() calls: %v): %s", variant == 1, firstLines(v.(string), 10))
 	}
 	if n := x.runningAtStopReturn.Load(); n > 0 {
 		x.fail("C16", "handle-running-when-stop-returned", "a Stop() call returned while %d Handle call(s) were still running (two overlapping Stop() calls: %v)", n, variant == 1)
